@@ -23,6 +23,49 @@ CLAIMS = {
    note="Trusted: the reference model; generated fields report length = sum of term frequencies (the property's precondition).", ref="DESIGN.md §5 C16"),
 }
 
+
+CLAIMS.update({
+ "C05": dict(tech="deterministic simulation: seeded Next/Advance histories with exclusions, flags and ReplaceActual, step-by-step conformance with a reference list model",
+   text="Stateful exploration: per case one postings list of a built or merged segment (fixed chunk modes 1-7 so that few documents span many chunks, adaptive mode with >1024 postings, 1-hit lists), an exclusion bitmap (nil/empty/listed/everything/chunk-edge postings), optionally ReplaceActual(sub) before the first step, one of 8 flag combinations and up to 30 Next/Advance steps with non-decreasing targets; every step is compared with the model list, nil must stay nil, Count() must equal the non-excluded postings.",
+   note="Trusted: reference model; Advance targets are generated strictly above the last returned document (the API contract).", ref="DESIGN.md §5 C05"),
+ "C06": dict(tech="deterministic simulation: seeded visit histories on one segment object over block-shaped batches, compared with the reference model",
+   text="Batches shaped around the 128-document stored blocks (120-262 documents, documents without any stored value, 6-13 byte values, very short records at the end of a block), built, loaded (memory/file over the simulated disk) and merged (byte-copy and re-encode paths); sequences of up to 24 visits on one segment object including early-stopping visitors and n = Count, Count+1, huge.",
+   note="Trusted: reference model. The probe counting records within 10 bytes of a block end mirrors the documented record layout (probe only, never a verdict).", ref="DESIGN.md §5 C06"),
+ "C07": dict(tech="deterministic simulation: seeded reader/visit-order histories across 1024-document chunks, compared with the reference model",
+   text="Readers opened on random subsets/orders of fields (incl. unknown and non-doc-value fields) visit existing documents forwards, backwards, randomly and ping-pong across chunk boundaries on built, loaded and merged segments of up to 4200 documents; each visit must deliver exactly the model's sorted terms for the requested doc-value fields.",
+   note="Trusted: reference model. Document numbers >= Count are not visited (outside the property's quantifier).", ref="DESIGN.md §5 C07"),
+ "C08": dict(tech="deterministic simulation: seeded dictionary queries (ranges, automata, lookups) on built and merged segments, compared with the reference model",
+   text="Per case up to 4 queries: field (known, unknown, empty name), [start,end) with nil or non-empty bounds drawn around the vocabulary, prefix / accept-all / contains-byte automata implemented by the harness; the enumeration must equal the model's filtered term list with true document counts, nil must stay nil, Contains and PostingsList must agree for present and absent terms.",
+   note="Trusted: reference model; harness DFAs.", ref="DESIGN.md §5 C08"),
+ "C09": dict(tech="deterministic simulation: seeded baton scheduler interleaving reader tasks, re-entrant visitors and a concurrent merge at storage/callback seams; per-op solo-result oracle; Go race detector under the serialised schedule (baton invisible to the detector)",
+   text="2-4 reader tasks (dictionary, postings, stored, doc values, DocsMatchingTerms, stats, persist; visitors that re-enter the segment) plus optionally a merge task share one freshly loaded segment (memory- or file-backed: every storage read, visitor callback and operation boundary is a yield point). The schedule list in the case decides every switch. Every operation must deliver exactly the model's solo result, the merge its solo bytes, no panic/hang; the same cases run in a -race build whose baton uses raw syscalls, so every pair of conflicting accesses ice does not order is reported deterministically.",
+   note="Interleavings are explored at seam granularity, not instruction level; data races between seams are detected by the race detector along explored schedules (no false positives, can miss races on paths not executed). Trusted: reference model, the //go:norace scheduler.", ref="DESIGN.md §5 C09, §2.3-2.4"),
+ "C10": dict(tech="deterministic simulation of two code versions sharing a disk: differential observation current vs frozen reference implementation in both directions, plus a committed golden corpus",
+   text="Every segment of seeded build/merge worlds is written by the current code and by the frozen reference copy (/verif/refice); each image is loaded memory- and file-backed by both readers and all observations must agree (and agree with the model). 48 committed reference-written files with recorded observations must be reproduced by the current reader alone.",
+   note="Trusted: /verif/refice (pinned ice + the format-neutral fix commits listed in refice/ORIGIN); the golden corpus was generated by it and cross-checked against the model.", ref="DESIGN.md §5 C10"),
+ "C12": dict(tech="deterministic simulation with exhaustive per-workload fault enumeration: failing writer at every byte offset, fail-once samples, close channel closed at every seam event",
+   text="Per generated workload (Segment.WriteTo of a built/memory/file view, Merger.WriteTo with buffer sizes 0/1/2/7/64/4096, unbuffered hook merge) the fault-free run fixes the reference bytes; then the simulated writer fails persistently after k bytes for every k in [0,L), fails once at 16 sampled offsets, and for merges the close channel is closed before the call, at every write and every input storage read, and after the last event. Error-or-complete-file oracle; the fault-free output is validated against the model.",
+   note="exhaustive refers to each workload's fault space; workloads are sampled. Writers never return n<len with nil error.", ref="DESIGN.md §5 C12"),
+ "C13": dict(tech="deterministic simulation: seeded lookup histories reusing earlier postings lists/iterators/dictionaries/readers across segments and encodings, compared with the reference model",
+   text="Histories of up to 30 lookups over 1-5 segments in which each postings lookup may pass any postings list / iterator created earlier (from any segment, 1-hit or general, exhausted or half-consumed) as prealloc, Dictionary objects and open DictionaryIterators are continued across other lookups, one doc-value reader per segment is reused, interleaved with stored-field visits (pooled contexts); each lookup's result must equal the model's.",
+   note="Trusted: reference model.", ref="DESIGN.md §5 C13"),
+ "C14": dict(tech="deterministic simulation: seeded build histories and baton-scheduled concurrent builders interleaved at document-iterator callbacks; byte-equality oracle; race-detector build",
+   text="The target batch is built, then again after each of 0-5 other builds (other shapes, failing builds with an unknown chunk mode), then concurrently with 1-3 other New calls interleaved by the scheduler at every Document.EachField callback; all builds of one (batch, norm, chunk mode) must be byte-identical. The same cases run under -race with the invisible baton. Pool reuse is measured through the verif probe.",
+   note="sync.Pool contents are not under the simulator's control; reuse is measured (pool-reuse-observed), not forced.", ref="DESIGN.md §5 C14"),
+ "C15": dict(tech="deterministic simulation: seeded read/persist/merge histories with before/after snapshots of observations, persisted bytes, backing memory and caller bitmaps (set and serialisation)",
+   text="Snapshot of every segment (full observation, persisted bytes, backing slice) and of every caller bitmap (clone and serialised bytes); histories of up to 25 operations (full observations with reuse, postings walks with exclusion bitmaps, WriteTo, merges whose results join the pool, DocsMatchingTerms, stored and doc-value visits); afterwards everything must be identical.",
+   note="Trusted: roaring's Equals/ToBytes.", ref="DESIGN.md §5 C15"),
+ "C17": dict(tech="deterministic simulation: metamorphic comparison of flat merges with seeded groupings/bracketings and translated deletions; identity merges",
+   text="1-5 leaves (built or merged) with deletion bitmaps are merged flat and in random order-preserving groupings (two or three levels), inner merges either applying their deletions or leaving them to be translated through DocumentNumbers() one level up; all results must be observationally identical including statistics; Merge([X],[nil]) must equal X.",
+   note="Needs no model (cross-checks the model used for C02). For a built X, DocumentCount of fields occurring without terms is excluded (the property's own carve-out).", ref="DESIGN.md §5 C17"),
+ "C18": dict(tech="deterministic simulation: seeded term lists over built/loaded/merged segments compared with the reference model's union",
+   text="Lists of 0-12 (field, term) pairs with repeats, absent terms, unknown fields (incl. the empty name), field switches inside the list and 1-hit terms; the returned bitmap must equal the model's union, never error or panic.",
+   note="Trusted: reference model.", ref="DESIGN.md §5 C18"),
+ "C19": dict(tech="deterministic simulation with exhaustive per-workload fault enumeration: storage fails from every read index on (3 error kinds) and transiently, with lock invariant and hang detector",
+   text="Per generated workload (file-backed segment, program of 3-12 read calls of all kinds) the fault-free run counts R storage reads; then for every j in [0,R] the simulated disk fails from read j on with os.ErrClosed / EIO / short read, and for windows of 1 and 3 reads; oracle: no panic, a call that saw a storage error reports an error or an empty result, after every call no segment mutex is held and all later calls return (goroutine-state hang detector as backstop), bounded reads per call after a transient fault. 5% of workloads additionally use a real temp file closed before each call in turn.",
+   note="exhaustive refers to each workload's fault space; workloads are sampled. Correctness of data returned after a fault is not asserted.", ref="DESIGN.md §5 C19"),
+})
+
 PENDING_REASON = "check under construction in this session; not yet claimed"
 
 def main():
